@@ -1,4 +1,39 @@
 import FranzVerif.Model.Idem
-/-! C02 — placeholder while the theorems are being written (see git log); no theorems yet. -/
+import FranzVerif.Proof.Idem
+/-! C02 — idempotent producing: acked once, in order; failed absent. Theorems over ALL accepted
+histories of the monitor `Model.Idem`; the tie is the history correspondence of `harness/cmd/sim02`.
+In every statement the history has the shape the harness produces: client and wire events, then the
+log read back, then the quiescent mark. -/
 namespace Props.C02
+open Model.Idem Proof.Idem
+
+/-- A record whose promise reports success appears exactly once in the log, at the partition and
+offset given to the promise. -/
+theorem acked_exactly_once_at_promised_offset (h : List Ev) (s : St) (hacc : run {} (h ++ [Ev.quiesce]) = some s)
+    (id : Id) (part : Nat) (off : Int) (hp : (id, true, part, off) ∈ promisesOf h) :
+    ∃ o : Nat, (o : Int) = off ∧ (logOf h).filter (fun e => e.2.2 == id) = [(part, o, id)] := by
+  sorry
+
+/-- A record whose promise reports an error is not in the log. -/
+theorem failed_absent (h : List Ev) (s : St) (hacc : run {} (h ++ [Ev.quiesce]) = some s)
+    (id : Id) (part : Nat) (off : Int) (hp : (id, false, part, off) ∈ promisesOf h) :
+    ∀ e ∈ logOf h, e.2.2 ≠ id := by
+  sorry
+
+/-- No record is in the log twice, no two records share an offset, and the log holds only produced records,
+each of which was promised exactly once. -/
+theorem log_has_no_duplicates (h : List Ev) (s : St) (hacc : run {} (h ++ [Ev.quiesce]) = some s) :
+    ((logOf h).map (·.2.2)).Nodup ∧ ((logOf h).map (fun e => (e.1, e.2.1))).Nodup ∧
+    (∀ e ∈ logOf h, e.2.2 ∈ calledIds h) ∧ ((promisesOf h).map (·.1)).Nodup ∧
+    (∀ id ∈ calledIds h, id ∈ (promisesOf h).map (·.1)) := by
+  sorry
+
+/-- Successful records of one partition appear in produce order: if `a`'s produce call returned before
+`b`'s began and both were acked on the same partition, `a` has the smaller offset. -/
+theorem acked_in_produce_order (h : List Ev) (s : St) (hacc : run {} (h ++ [Ev.quiesce]) = some s)
+    (a b : Id) (part : Nat) (oa ob : Int)
+    (ha : (a, true, part, oa) ∈ promisesOf h) (hb : (b, true, part, ob) ∈ promisesOf h)
+    (hord : returnedBefore h a b) : oa < ob := by
+  sorry
+
 end Props.C02
